@@ -581,6 +581,22 @@ impl Ctx {
                     }
                 }
             }
+            ["rfq", fs, h] => {
+                let fs: Vec<u32> = fs.split(',').map(|x| x.parse::<u32>().ok()).collect::<Option<Vec<u32>>>()?;
+                let xs = parse_hex(h)?;
+                if fs.len() != 256 {
+                    return None;
+                }
+                // the C++ `int` arithmetic is defined only when no merge can overflow
+                let mag: u64 = fs.iter().map(|&f| (f as i32 as i64).unsigned_abs()).sum::<u64>() + 1;
+                if mag >= (1u64 << 31) {
+                    "skip".to_string()
+                } else {
+                    o.count("rfq_reference_trees");
+                    let refh = RefHuffman::from_frequencies(&fs);
+                    to_hex(&ref_comp(&refh, &xs))
+                }
+            }
             ["fq", fs, cap, h] => {
                 let fs: Vec<u32> = fs.split(',').map(|x| x.parse::<u32>().ok()).collect::<Option<Vec<u32>>>()?;
                 let cap: usize = cap.parse().ok()?;
@@ -1120,6 +1136,35 @@ impl D {
         // 5. tables from frequency vectors (last: the model side is slow on these)
         let n = if thorough { 600 } else if search { 30 } else { 60 };
         let mut emitted = 0usize;
+        // the reference's own tree construction (model of ConstructTree/Setbits_r vs. the real C++):
+        // shapes whose reference tree stays shallow
+        {
+            let n_rfq = if thorough { 300 } else if search { 10 } else { 40 };
+            for k in 0..n_rfq {
+                let mut fs = match k % 8 {
+                    0 => shipped.to_vec(),
+                    1 => gen_freqs(&mut rng, 1, &shipped),
+                    2 => gen_freqs(&mut rng, 2, &shipped),
+                    3 => gen_freqs(&mut rng, 3, &shipped),
+                    4 => (0..256).map(|_| 1 + rng.below(3) as u32).collect(),
+                    5 => vec![1 + rng.below(3) as u32; 256],
+                    _ => (0..256).map(|_| 50 + rng.below(1000) as u32).collect(),
+                };
+                // for a third: entries that are negative for the C++ (D16b shape)
+                // (only on top of frequencies >= 50: a negative partial sum keeps absorbing the next
+                // smallest node, small positives would give a chain deeper than 31 = `1 << Depth` UB)
+                if k % 3 == 2 && fs.iter().all(|&x| x >= 50) {
+                    for _ in 0..1 + rng.below(3) {
+                        let i = rng.below(256) as usize;
+                        fs[i] = u32::MAX - rng.below(40) as u32;
+                    }
+                }
+                let m = rng.below(20) as usize;
+                let xs = if rng.chance(1, 2) { rng.bytes(m) } else { gen_content(&mut rng, m) };
+                let line: Vec<String> = fs.iter().map(|x| x.to_string()).collect();
+                writeln!(w, "rfq {} {}", line.join(","), to_hex(&xs)).unwrap();
+            }
+        }
         // one of each fixed shape first
         for kind in [0u64, 12, 5, 6, 9, 13] {
             let fs = gen_freqs(&mut rng, kind, &shipped);
